@@ -661,6 +661,11 @@ def paths_under (repo, module, g, env, start, stops, cls=None, limit=200, track=
       except _Unknown: v = None
       except Exception: v = None
       if v is not None: succ = [(m, l) for m, l in n.succ if l == v]
+      # a loop test that evaluates to a definite True under the current values: the body may be walked again (concrete
+      # iteration of `while i < n and ...` loops); bounded by the length of the path
+      if v is True and isinstance(getattr(n, 'stmt', None), ast.While) and any(x is n.ast for x in ast.walk(n.stmt.test)):
+        if len(path) > 900: continue
+        used = frozenset()
     ne = e
     if track and n.kind == 'stmt' and isinstance(n.ast, (ast.Assign, ast.AugAssign)) and (n is not start or (track_start and len(path) == 1)):
       ne = _assign_env(repo, module, n.ast, e, cls)
@@ -807,8 +812,12 @@ def _assign_env (repo, module, st, env, cls):
         c2 = list(cur) if isinstance(cur, list) else dict(cur)
         c2[k_] = v_
         ne.exact[base] = c2
+        for k2_, v2_ in list(ne.exact.items()):
+          if k2_ != base and v2_ is cur: ne.exact[k2_] = c2
       except Exception:
         ne.exact.pop(base, None)
+        for k2_, v2_ in list(ne.exact.items()):
+          if v2_ is cur: ne.exact.pop(k2_, None)
     return ne
   if isinstance(st, ast.AugAssign) and isinstance(st.target, ast.Subscript) and not isinstance(st.target.slice, ast.Slice):
     base = norm(st.target.value)
@@ -821,8 +830,12 @@ def _assign_env (repo, module, st, env, cls):
         c2 = list(cur) if isinstance(cur, list) else dict(cur)
         c2[k_] = v_
         ne.exact[base] = c2
+        for k2_, v2_ in list(ne.exact.items()):
+          if k2_ != base and v2_ is cur: ne.exact[k2_] = c2
       except Exception:
         ne.exact.pop(base, None)
+        for k2_, v2_ in list(ne.exact.items()):
+          if v2_ is cur: ne.exact.pop(k2_, None)
     return ne
   # anything else: kill every name stored
   for t in (st.targets if isinstance(st, ast.Assign) else [st.target]):
